@@ -153,6 +153,16 @@ def run(tier, seed):
     core += [[{"op": "build", "s": 1, "g": g, "bad": 0}, {"op": "freeze", "s": 1}, {"op": "move", "s": 1}, {"op": "de", "s": 1, "mode": "borrowed"}, {"op": "move", "s": 1},
               {"op": "new_cfg", "s": 1}, {"op": "ser", "s": 1, "v": 2}, {"op": "drop_cfg", "s": 1}, {"op": "move", "s": 1}, {"op": "debug", "s": 1},
               {"op": "drop_schema", "s": 1}, {"op": "use_values"}] for g in (1, 2)]
+    # huge keys on a node the root does not reach (index * node size wraps around the address space; large powers of two and their
+    # successors; the smallest indexes whose product with every plausible node size overflows): Lifecycle!Freeze says err for each
+    huge = [(1 << sh) | low for sh in range(56, 64) for low in range(3)] + [(2 ** 64 - 1) // sz + 1 for sz in range(8, 2049, 8)] + \
+           [2 ** 64 - 1, 2 ** 63 - 1, 2 ** 32, 2 ** 32 + 1]
+    sweeps = [[{"op": "build", "s": 1, "g": 1 + (k // 2) % 2, "bad": 4, "key": str(huge[k])}, {"op": "freeze", "s": 1}] +
+              ([{"op": "build", "s": 2, "g": 2 - (k // 2) % 2, "bad": 4, "key": str(huge[k + 1])}, {"op": "freeze", "s": 2}] if k + 1 < len(huge) else []) +
+              [{"op": "use_values"}] for k in range(0, len(huge), 2)]
+    core += [sweeps[1], sweeps[11]]        # (two of them under Miri as well)
+    core_n = len(core)
+    core = core + sweeps                   # all of them natively and against Trace_Lifecycle
     hists = core + bfs + sim1
     work = common.workdir(f"c10-{os.getpid()}")
     allp = os.path.join(work, "all.ndjson")
@@ -176,7 +186,7 @@ def run(tier, seed):
         tevents.append({"op": {"op": "reset"}, "res": "", "strong": -1})
         towner.append(i)
         for o_, ln in zip(hists[i], lg):
-            ev = {"op": o_, "res": "", "strong": -1}
+            ev = {"op": {k_: v_ for k_, v_ in o_.items() if k_ != "key"}, "res": "", "strong": -1}      # (the key's value is the interpreter's business: bad = 4)
             if o_["op"] == "freeze":
                 ev["res"] = ln.split()[2] if len(ln.split()) > 2 else "?"
             elif o_["op"] == "drop_handle":
@@ -251,7 +261,7 @@ def run(tier, seed):
     rng = random.Random(seed)
     n_miri = 128 if tier == "quick" else 1280
     ranked = sorted(range(len(hists)), key=lambda i: -score(hists[i]))
-    pick = list(range(len(core))) + [i for i in ranked if i >= len(core)][: n_miri // 2]
+    pick = list(range(core_n)) + [i for i in ranked if i >= len(core)][: n_miri // 2]
     rest = [i for i in ranked if i not in set(pick)]
     pick += rng.sample(rest, min(n_miri // 2, len(rest)))
     nsh = common.NCPU
